@@ -3,6 +3,7 @@ use vkit::report::{Args, Report};
 
 mod c02;
 mod c03;
+mod c05;
 mod c06;
 mod c07;
 mod c08;
@@ -28,6 +29,7 @@ fn main() {
         "smoke" => smoke::run(&args, &mut rep),
         "c02" => c02::run(&args, &mut rep),
         "c03" => c03::run(&args, &mut rep),
+        "c05" => c05::run(&args, &mut rep),
         "c06" => c06::run(&args, &mut rep),
         "c07" => c07::run(&args, &mut rep),
         "c08" => c08::run(&args, &mut rep),
